@@ -12,7 +12,7 @@ from rtc.executors import ShuffleExecutor
 from vf.bounded import Check
 
 ID = "C03"
-LEVEL = "exploration"
+LEVEL = "other"
 LEVEL_TEXT = ("Bounded relational contract on the real Pipeline.map / map_async: for generated programs the results, the "
               "stored data and the per-index call multiset must equal the reference denotation under every sampled "
               "configuration: sequential, ThreadPoolExecutor, ProcessPoolExecutor, per-output executor dicts, storages "
@@ -34,11 +34,21 @@ CONFIGS_EXTRA = ["process/file_array", "process/shared_memory_dict", "async-proc
 
 
 def registry():
-    return {}
+    from contracts import misc
+    return {c.short: c for c in misc.ALL}
+
+
+def _exf_gen(rng, tier):
+    from types import SimpleNamespace
+    for out in ("a", ("a", "b")):
+        for ex in [None, {}, {"": "E0"}, {"a": "Ea"}, {("a", "b"): "Eab", "": "E0"}, {"zz": "Ez"}]:
+            yield {"func": SimpleNamespace(output_name=out), "executor": ex}
 
 
 def proof_items():
-    return []
+    from contracts import misc
+    from vf.driver import ProofItem
+    return [ProofItem(misc.executor_for_func, gen=_exf_gen)]
 
 
 def _cases(tier, rng):
